@@ -56,6 +56,9 @@ def choose_pairs(ctx: Ctx, kind: str, n: int) -> list[tuple[str, str]]:
     while len(pairs) < n:
         a, b = rng.sample(strings, 2)
         pairs.append((a, b))
+    # long names that agree in their first 100+ characters (a derivation that truncates would merge them)
+    stem = "accountsReceivableReconciliationAndSettlementReportingServiceForTheEuropeanRegionIncludingAllSubsidiariesAndBranches"
+    pairs[-2:] = [(stem + "Alpha", stem + "Beta"), (stem + "_x", stem + "_y")]
     return pairs
 
 
